@@ -12,6 +12,16 @@ def main():
         get_lib_logger().setLevel(logging.DEBUG)
     except Exception:
         pass
+    # ambient interpreter / library state an application may legitimately have set; nothing the properties
+    # quantify over depends on it: the library-wide CFDP entity-ID registry (spacepackets.cfdp.conf) is filled,
+    # the decimal context of the main thread is the 9-digit BasicContext with its traps
+    try:
+        from spacepackets.cfdp.conf import set_entity_ids
+        set_entity_ids(b"\x00\x2a", b"\x00\x2b")
+    except Exception:
+        pass
+    import decimal
+    decimal.setcontext(decimal.BasicContext)
     ap = argparse.ArgumentParser()
     ap.add_argument("id")
     ap.add_argument("--tier", default=os.environ.get("VERIF_TIER", "quick"), choices=["quick", "thorough"])
